@@ -106,8 +106,6 @@ def _decode(states, P, Q, obs, log, api, verbose):
         return math.log(v) if log else v
 
     def S(t, k):
-        if t is not track:
-            raise Violation("callback-contract:S", "S called with a different track")
         return list(states[k])
 
     def Pf(s, y, k, t):
@@ -298,8 +296,8 @@ RULE = ("small: EVERY model with T <= 3 epochs, 1..2 states per epoch and all li
         "Non-trivial: T >= 2, some epoch with >= 2 states and the per-epoch greedy argmax of P is not optimal. Distinct = hash of the case.")
 
 SUBCHECKS = [
-    SubCheck("small", body_small, enum=enum_small, qshards=8, tshards=16,
+    SubCheck("small", body_small, enum=enum_small, qshards=10, tshards=16,
              rule="all models T<=3, <=2 states/epoch, likelihoods {0,1/2,1}"),
-    SubCheck("models", body_model, strategy=strat_model, quick=8000, thorough=240000, qshards=8, tshards=16,
+    SubCheck("models", body_model, strategy=strat_model, quick=6000, thorough=240000, qshards=6, tshards=16,
              rule="random models T<=8, S<=5 vs. enumeration of all sequences"),
 ]
